@@ -173,7 +173,7 @@ func (c20) Gen(r *rand.Rand, tier string, idx int) *core.Plan {
 			if r.IntN(6) == 0 {
 				meta = int64(1 + r.IntN(3))
 			}
-			p.Ops = append(p.Ops, core.Op{Kind: "install", S: []string{name}, I: []int64{v, b(25), b(60), 1 - b(30), b(50), b(50), b(40), b(50), second, meta}})
+			p.Ops = append(p.Ops, core.Op{Kind: "install", S: []string{name}, I: []int64{v, b(25), b(60), 1 - b(30), b(50), b(50), b(40), b(50), second, meta, int64(r.IntN(8) % 5)}})
 		case x < 7:
 			p.Ops = append(p.Ops, core.Op{Kind: "uninstall", S: []string{name}})
 		case x < 9:
@@ -297,6 +297,19 @@ func (l c20) Exec(env *core.Env) *core.Result {
 					} else if second == 2 {
 						add("notation-second", string(c20ExeWith(c16Meta("second", "1.0.0"))), 0644)
 					}
+					// non-regular top-level entries are not installed and must not disturb the rest
+					switch op.Int(10) {
+					case 1: // a symlink that sorts before the executable, next to its regular target
+						add("libfoo.so.1", "shared object "+version, 0644)
+						os.Symlink("libfoo.so.1", filepath.Join(d, "libfoo.so"))
+					case 2: // ... that sorts after everything
+						add("libfoo.so.1", "shared object "+version, 0644)
+						os.Symlink("libfoo.so.1", filepath.Join(d, "zzz-link"))
+					case 3: // a dangling symlink first
+						os.Symlink("does-not-exist", filepath.Join(d, "AAA-dangling"))
+					case 4: // a symlink to a directory
+						os.Symlink(".", filepath.Join(d, "dirlink"))
+					}
 					if subdir {
 						os.MkdirAll(filepath.Join(d, "sub", "deeper"), 0755)
 						os.WriteFile(filepath.Join(d, "sub", "nested.txt"), []byte("nested"), 0644)
@@ -353,7 +366,7 @@ func (l c20) Exec(env *core.Env) *core.Result {
 				if err != nil {
 					verdict = "refused"
 				}
-				key := fmt.Sprintf("install v=%s over=%v installed=%v dir=%v exec=%v before=%v after=%v sub=%v shadow=%v second=%d meta=%d", version, overwrite, old != nil, fromDir, candExec, extraBefore, extraAfter, subdir, shadow, second, meta)
+				key := fmt.Sprintf("install v=%s over=%v installed=%v dir=%v exec=%v before=%v after=%v sub=%v shadow=%v second=%d meta=%d link=%d", version, overwrite, old != nil, fromDir, candExec, extraBefore, extraAfter, subdir, shadow, second, meta, op.Int(10))
 				trace = append(trace, map[string]any{"op": key, "name": name, "verdict": verdict, "faulted": faulted})
 				sim.Abstract(key + "|" + name + "|" + verdict)
 				if old != nil || (fromDir && (extraBefore || extraAfter || subdir)) {
